@@ -9,6 +9,12 @@ T: real MemoryIO / SlicedMemoryIO objects over a recording controller (a Machine
    it caused and tell() straight after it; closed by the final content of the whole window.  Judged by
    FileViewTrace.tla.  Root views are built directly (MemoryIO(...), including end < start) and through the real
    rig.machine_control.utils.sdram_alloc_for_vertices -> MachineController.sdram_alloc_as_filelike.
+   Controller accesses may FAIL: the recording controller raises (an SCP time-out / a fatal return code / an
+   OSError) on the access of a chosen read or write; through the real controller the simulated network loses
+   every transmission of one command of the chosen operation (SCP runs out of tries), or delivers the replies of
+   the operation's commands late, so that each is retransmitted and answered twice, the last duplicate arriving
+   during the next operation.  A failed access is recorded ("rx" / "wx": attempted there, nothing transferred);
+   the operations after it (tell, reads, writes, seeks) are judged like all others.
 
 This file contains no oracle: it drives rig, records what happened and encodes it.
 """
@@ -20,6 +26,7 @@ import warnings
 from rig.machine_control.machine_controller import (MachineController, MemoryIO, SlicedMemoryIO,
                                                      TruncationWarning)
 from rig.machine_control import utils as mc_utils
+from rig.machine_control import scp_connection as scp_mod
 from rig.place_and_route import Cores, SDRAM
 from rig.utils.contexts import ContextMixin
 
@@ -43,11 +50,31 @@ class RecordingController(MachineController):
         self.log = []
         self.next_alloc = None
         self.plan = None                    # {(x, y): address the allocator hands out on that chip}
+        self.fault = None                   # armed by History.perform for one operation: ("fail", class index)
 
     def mem_at(self, x, y):
         return self.mems.setdefault((x, y), bytearray(self.initial))
 
+    def arm(self, fault):
+        self.fault = fault if fault and fault[0] == "fail" else None
+
+    def disarm(self):
+        self.fault = None
+
+    def failing(self, kind, address, n, x, y):
+        """the armed access fails: recorded as attempted, nothing is transferred, the machine's error is raised"""
+        if self.fault is None:
+            return
+        which, self.fault = self.fault[1], None
+        self.log.append([kind, address - self.origin, n, [], x, y])
+        if which % 3 == 0:
+            raise scp_mod.TimeoutError("No response after 5 attempts.")
+        if which % 3 == 1:
+            raise scp_mod.FatalReturnCodeError(0x88)
+        raise OSError(101, "Network is unreachable")
+
     def read(self, address, length_bytes, x, y, p=0):
+        self.failing("rx", address, length_bytes, x, y)
         mem = self.mem_at(x, y)
         # (an absurdly long read - only a view that failed to clip asks for one - is answered with its first
         # READ_CAP bytes, so that the driver survives; the recorded length is the one asked for)
@@ -59,6 +86,7 @@ class RecordingController(MachineController):
 
     def write(self, address, data, x, y, p=0):
         data = bytes(data)
+        self.failing("wx", address, len(data), x, y)
         mem = self.mem_at(x, y)
         self.log.append(["w", address - self.origin, len(data), list(bytearray(data)), x, y])
         for i, b in enumerate(bytearray(data)):
@@ -93,26 +121,67 @@ class StackController(MachineController):
         self.net = SimNet(self.sim)
         self.net.install(scp_connection, machine_controller)
         MachineController.__init__(self, "sim", initial_context={"app_id": 66})
-        self.origin, self.n = origin, len(mem)
+        self.origin, self.n, self.bufsize = origin, len(mem), bufsize
         for c in self.sim.chips.values():
             c.write(origin, bytes(mem))
         self.log = []
         self.next_alloc = None
         self.plan = None
         self.installed = True
+        self.fault = None                   # armed by History.perform for one operation
+        self.seen = []                      # the distinct datagrams sent since the fault was armed
+        self.sent = {}                      # ... and how often each was transmitted
+        self.lost = False                   # a "fail" fault has lost a transmission
+        self.net.fate = self.fate
 
     def mem_at(self, x, y):
         return bytearray(self.sim.chips[(x, y)].read(self.origin, self.n))
 
+    # datagram faults.  ("fail", k, how): every transmission of the k-th command sent during the operation is lost
+    # (how = 0: the request; 1: the reply, reads only) - SCP runs out of tries; ("late", ): the replies to the first
+    # two transmissions of every command of the operation are delivered late (the first after the time-out, i.e.
+    # after the retransmission; the second after the next datagram has been sent - for the operation's last
+    # command that is the first command of the next operation)
+    def arm(self, fault):
+        self.fault, self.seen, self.sent, self.lost = fault, [], {}, False
+
+    def disarm(self):
+        self.fault = None
+
+    def fate(self, n, data=b""):
+        if self.fault is None:
+            return "ok"
+        if data not in self.seen:
+            self.seen.append(data)
+        self.sent[data] = self.sent.get(data, 0) + 1
+        if self.fault[0] == "fail":
+            if self.seen.index(data) == self.fault[1]:
+                self.lost = True
+                return "lose_reply" if self.fault[2] else "lose_request"
+            return "ok"
+        return "hold_reply" if self.sent[data] <= 2 else "ok"
+
     def read(self, address, length_bytes, x, y, p=0):
-        data = MachineController.read(self, address, length_bytes, x, y, p)
+        try:
+            data = MachineController.read(self, address, length_bytes, x, y, p)
+        except Exception:
+            if self.lost:                   # (only a failure the network caused is recorded as one)
+                self.log.append(["rx", address - self.origin, length_bytes, [], x, y])
+            raise
         self.log.append(["r", address - self.origin, length_bytes, list(bytearray(data)), x, y])
         return data
 
     def write(self, address, data, x, y, p=0):
         data = bytes(data)
+        try:
+            MachineController.write(self, address, data, x, y, p)
+        except Exception:
+            if not self.lost:
+                self.log.append(["w", address - self.origin, len(data), list(bytearray(data)), x, y])
+            else:                           # (the lost command was the write's first: nothing was stored)
+                self.log.append(["wx", address - self.origin, len(data), [], x, y])
+            raise
         self.log.append(["w", address - self.origin, len(data), list(bytearray(data)), x, y])
-        MachineController.write(self, address, data, x, y, p)
 
     def sdram_free(self, ptr, x, y):
         self.log.append(["f", ptr - self.origin, 0, [], x, y])
@@ -137,9 +206,19 @@ def opt(f):
     return [v] if isinstance(v, int) and not isinstance(v, bool) else []
 
 
+def fault_text(fault):
+    if fault[0] == "late":
+        return "the replies to its commands arrive late (each command is sent again and answered twice)"
+    if len(fault) == 2:
+        return "its controller access raises %s" % ("TimeoutError", "FatalReturnCodeError", "OSError")[fault[1] % 3]
+    return "every transmission of the %s of its command number %d is lost" % (("request", "reply")[fault[2]], fault[1])
+
+
 def describe(op):
     """the operation as Python text (for people and for hashing; the specification never reads it)"""
-    name, vid, args = op
+    name, vid, args = op[:3]
+    if len(op) > 3 and op[3]:
+        return "%s  # %s" % (describe(op[:3]), fault_text(op[3]))
     v = "v%d" % vid
     if name == "slice":
         return "v_new = %s[%s]" % (v, ":".join("" if a is None else str(a) for a in args))
@@ -191,6 +270,9 @@ class History(object):
         # (the origin travels as text: window origins above 2^31 do not fit TLC's integers, and the
         # specification never reads it)
         self.setup = dict(mem=list(bytearray(mem)), start=start, end=end, x=x, y=y, origin=hex(origin), via=via)
+        if stack:
+            self.setup["stack"] = stack      # (not read by the specification: to run the history again)
+        self.fault_rate = 0.0                # share of the random reads / writes whose controller access is disturbed
         if extra:
             self.setup.update(extra)
         self.ev = []
@@ -224,11 +306,13 @@ class History(object):
         return [a - self.origin for a in lst]
 
     def perform(self, op):
-        name, vid, args = op
+        name, vid, args = op[:3]
+        fault = tuple(op[3]) if len(op) > 3 and op[3] and name in ("read", "write") else None
         self.ops.append(describe(op))
         v = self.views[vid - 1]
         self.ctrl.log = []
         new_view = None
+        self.ctrl.arm(fault)
         with warnings.catch_warnings(record=True) as caught:
             warnings.simplefilter("always")
             try:
@@ -288,6 +372,7 @@ class History(object):
                 raise
             except Exception as ex:        # judged by the specification
                 out = ["raise", type(ex).__name__]
+            self.ctrl.disarm()
             after = opt(v.tell)
         nwarn = sum(1 for w in caught if issubclass(w.category, TruncationWarning))
         acc = self.ctrl.log
@@ -297,6 +382,10 @@ class History(object):
             # not read by the specification: the view's own len(), so that a rejection of a seek from the end
             # can be keyed by what exactly went wrong (see key_of)
             e.append(opt(lambda: len(v)))
+        elif fault:
+            # not read by the specification (which sees the failed access among the accesses): the fault that
+            # was arranged for this operation, so that the history can be run again
+            e.append(list(fault))
         self.ev.append(e)
         return e
 
@@ -323,8 +412,8 @@ def fits(tr):
     return ok(tr)
 
 
-def run_ops(ops, origin, mem, start, end, label, via="direct", x=1, y=2, cut=False, ghost=None):
-    h = History(origin, mem, start, end, x=x, y=y, via=via, ghost=ghost)
+def run_ops(ops, origin, mem, start, end, label, via="direct", x=1, y=2, cut=False, ghost=None, stack=0):
+    h = History(origin, mem, start, end, x=x, y=y, via=via, ghost=ghost, stack=stack)
     for op in ops:
         if op[1] > len(h.views):
             if cut:
@@ -358,11 +447,12 @@ def alphabet(vid, root):
 
 def concretise(seq):
     out = []
-    for k, (nm, vid, a) in enumerate(seq):
+    for k, op in enumerate(seq):
+        nm, vid, a = op[:3]
         if nm == "write":
-            out.append((nm, vid, (data_for(k, a),)))
+            out.append((nm, vid, (data_for(k, a),)) + tuple(op[3:]))
         else:
-            out.append((nm, vid, a))
+            out.append((nm, vid, a) + tuple(op[3:]))
     return out
 
 
@@ -417,10 +507,13 @@ WEIGHTS = [("seek", 25), ("read", 20), ("write", 20), ("slice", 12), ("tell", 4)
            ("flush", 2), ("close", 3), ("free", 1)]
 
 
-def random_step(rng, h, clean):
+BUSY = [("seek", 25), ("read", 32), ("write", 25), ("slice", 4), ("tell", 5), ("address", 1)]    # mostly transfers
+
+
+def random_step(rng, h, clean, weights=WEIGHTS):
     """one random operation on one of the views of history h"""
-    names = [w[0] for w in WEIGHTS]
-    cum = [w[1] for w in WEIGHTS]
+    names = [w[0] for w in weights]
+    cum = [w[1] for w in weights]
     if not h.views:
         return
     vid = len(h.views) - rng.randrange(min(len(h.views), 3)) if rng.random() < 0.7 else rng.randint(1, len(h.views))
@@ -475,15 +568,29 @@ def random_step(rng, h, clean):
         args = ("with",) if rng.random() < 0.3 else ()
     else:
         args = ()
-    h.perform((name, vid, args))
+    fault = None
+    if name in ("read", "write") and h.fault_rate and rng.random() < h.fault_rate:
+        if not isinstance(h.ctrl, StackController):
+            fault = ("fail", rng.randrange(3))
+        elif rng.random() < 0.5:
+            fault = ("late",)
+        elif name == "write":
+            fault = ("fail", 0, 0)                   # (the write's first command: nothing is stored)
+        else:
+            fault = ("fail", rng.choice((0, 0, 1, 2)), rng.randrange(2))
+    h.perform((name, vid, args, fault))
 
 
-def random_history(rng, clean, nops, big=False, force_stack=False):
+def random_history(rng, clean, nops, big=False, force_stack=False, faulty=None, busy=False, ctrl=None):
+    """(ctrl: a StackController to be used by this history as well - one connection, one run of sequence numbers
+    and whatever is still under way in the network are then shared with the histories before it)"""
     origin = rng.choice((0, 88, 0x60000000, 0x7FFF0000, 0xFFFF0000))
     win = BIGWIN if big else WIN
     mem = bytes(bytearray(rng.randrange(256) for _ in range(win)))
     start = rng.randint(8, 16)
     ln = rng.choice((255, 256, 257, 260, 300)) if big else rng.choice((0, 1, 2, 3, 4, 4, 5, 6, 8, 8))
+    if busy:
+        ln = rng.choice((6, 8, 8, 10))
     via = "direct" if rng.random() < 0.7 else "alloc"
     end = start + ln
     if via == "direct" and rng.random() < 0.08:
@@ -495,9 +602,16 @@ def random_history(rng, clean, nops, big=False, force_stack=False):
     ghost = None
     if rng.random() < 0.1:
         ghost = [rng.choice((ln, ln + 4, 1, 8)), rng.sample(["read", "seek", "close"], rng.randint(0, 3))]
-    h = History(origin, mem, start, end, x=x, y=y, via=via, stack=stack, ghost=ghost)
+    if ctrl is not None:
+        origin, stack = ctrl.origin, ctrl.bufsize
+        ctrl.sim.chips[(x, y)].write(origin, mem)        # (the environment: this history's initial memory,
+        for sock in ctrl.net.sockets:                    # and a network in which nothing is under way any more)
+            sock.inbox.clear()
+            sock.held.clear()
+    h = History(origin, mem, start, end, x=x, y=y, via=via, stack=stack, ghost=ghost, ctrl=ctrl)
+    h.fault_rate = faulty if faulty is not None else rng.choice((0, 0, 0.1, 0.3))
     for _ in range(nops):
-        random_step(rng, h, clean)
+        random_step(rng, h, clean, BUSY if busy else WEIGHTS)
     return h
 
 
@@ -572,9 +686,51 @@ def random_group(rng, clean, nops):
     opts = dict(core_as_tag=rng.choice(("default", "default", "yes", "no")), clear=rng.random() < 0.3, alt=rng.random() < 0.3)
     stack = rng.choice((4, 5)) if clean and rng.random() < 0.15 else 0
     ctrl, hs = make_group(origin, mem, verts, opts, stack)
+    rate = rng.choice((0, 0, 0.1, 0.3))
+    for h in hs:
+        h.fault_rate = rate
     for _ in range(nops):
         random_step(rng, rng.choice(hs), clean)
     return ctrl, hs
+
+
+# ------------------------------------------------------------------------------------------ failing accesses
+def fault_family(chk, rng):
+    """(a) over the recording controller, systematically: a prefix that places a view (root or slice) somewhere, a
+    read / write whose controller access raises (three exception classes), then what a caller does next: tell, the
+    same call again (with or without a second failure), other reads / writes / relative seeks, on this and on the
+    other view; (b) through the real controller and the simulated network: random histories in which half of the
+    reads and writes are disturbed (a command losing all its transmissions / replies arriving late and twice)."""
+    mem = bytes(bytearray((13 * i + 5) & 0xFF for i in range(WIN)))
+    start, end = 12, 18
+    prefixes = [(1, []), (1, [("seek", 1, (2, 0))]), (1, [("seek", 1, (5, 0))]), (1, [("write", 1, 3)]),
+                (2, [("slice", 1, (1, 5))]), (2, [("slice", 1, (1, 5)), ("seek", 2, (1, 0)), ("read", 1, (1,))])]
+    n = 0
+    for vid, pre in prefixes:
+        other = 1 if vid == 2 else None
+        newvid = 2 + sum(1 for o in pre if o[0] == "slice")
+        for body in (("read", vid, ()), ("read", vid, (2,)), ("read", vid, (9,)), ("write", vid, 2), ("write", vid, 9)):
+            for cls in range(3):
+                bad = body + (("fail", cls),)
+                tails = [[("tell", vid, ())], [body], [bad, body], [("read", vid, (2,))], [("read", vid, ())],
+                         [("write", vid, 2), ("seek", vid, (0, 0)), ("read", vid, ())],
+                         [("seek", vid, (1, 1)), ("tell", vid, ())], [("seek", vid, (-1, 1)), body],
+                         [("address", vid, ())], [("slice", vid, (None, None)), ("read", newvid, ())]]
+                if other:
+                    tails += [[("read", other, ())], [("tell", other, ()), body]]
+                for tail in tails:
+                    t = run_ops(concretise(pre + [bad] + tail), 88, mem, start, end, "failing-access", cut=True)
+                    if t is not None:
+                        n += 1
+                        yield t
+    for bufsize in chk.pick((4, 5, 4, 5), (4, 5) * 10):
+        ctrl = StackController(rng.choice((0, 88, 0x60000000, 0x7FFF0000, 0xFFFF0000)), bytes(WIN), 0, 0, bufsize)
+        for i in range(30):
+            h = random_history(rng, True, rng.randint(6, 18), faulty=0.5, busy=True, ctrl=ctrl)
+            yield h.trace("failing-access-random")
+            n += 1
+        ctrl.close()
+    chk.extra["failing_access_traces"] = n
 
 
 # ------------------------------------------------------------------------------------------ behaviours from TLC
@@ -638,7 +794,10 @@ def ops_of(ev):
             args = tuple(b[0] if b else None for b in a)
         else:
             args = tuple(a)
-        ops.append((nm, e[1], args))
+        if nm in ("read", "write") and len(e) > 7:
+            ops.append((nm, e[1], args, tuple(e[7])))
+        else:
+            ops.append((nm, e[1], args))
     return ops
 
 
@@ -675,7 +834,8 @@ def replay(chk):
         ctrl.close()
     else:
         t = run_ops(ops, origin, mem, old["start"], old["end"], "replay",
-                    via=old["via"], x=old["x"], y=old["y"], ghost=json.loads(old["ghost"]) if "ghost" in old else None)
+                    via=old["via"], x=old["x"], y=old["y"], ghost=json.loads(old["ghost"]) if "ghost" in old else None,
+                    stack=old.get("stack", 0))
     chk.note_case(t["ops"])
     chk.sample(t)
     chk.rule = "replay of %s: the recorded operations run again on the real views" % chk.replay_path
@@ -707,6 +867,11 @@ def run(chk):
                     chk.count("operations that raised " + e[3][1])
                 if e[5]:
                     chk.count("operations with a TruncationWarning")
+                if e[0] in ("read", "write"):
+                    if any(a[0] in ("rx", "wx") for a in e[4]):
+                        chk.count("%ss whose controller access failed" % e[0])
+                    if len(e) > 7 and e[7] and e[7][0] == "late":
+                        chk.count("%ss whose replies arrived late and twice (real controller)" % e[0])
             chk.count("views created by slicing", sum(1 for e in t["ev"] if e[0] == "slice" and e[3][0] == "ok"))
         rej.extend(chk.validate("FileViewTrace", "FileViewTrace.cfg", pending, key_of=key_of, batch=12000, workers=4))
         del pending[:]
@@ -719,6 +884,17 @@ def run(chk):
             chk.sample(t)
         chk.note_case(t["ops"], nontrivial=len(t["ops"]) >= 2)
         judge()
+    # controller accesses that fail, and what the views do afterwards
+    sampled = False
+    for t in fault_family(chk, rng):
+        if not fits(t):
+            chk.skip("an integer of the trace does not fit TLC's 32 bits")
+            continue
+        pending.append(t)
+        if not sampled and any(a[0] in ("rx", "wx") for e in t["ev"][:-1] for a in e[4]):
+            sampled = True
+            chk.sample(t)
+        chk.note_case((t["mem"], t["start"], t["end"], t["ops"]), nontrivial=True)
     sim = simulated(chk, rng)
     for t in sim:
         pending.append(t)
@@ -782,7 +958,14 @@ def run(chk):
                 "are far: 65528 .. 2^31-2); then groups of 2-4 allocations made by ONE call of sdram_alloc_for_vertices "
                 "(different chips, equal or different addresses, optional vertex without SDRAM, core_as_tag / clear / "
                 "other resource names given or defaulted) with their 4-30 operations interleaved, each allocation's "
-                "history judged on its own chip's memory; then a few views of 255-300 bytes; 60% of the random histories keep positions inside 0..len+3, write only "
+                "history judged on its own chip's memory; then a few views of 255-300 bytes; controller accesses that "
+                "FAIL (a directed family over the recording controller: prefix x read / write whose access raises "
+                "TimeoutError / FatalReturnCodeError / OSError x what the caller does next - tell, the same call again, "
+                "a second failure, other transfers, relative seeks, the other view; 120 histories through the real "
+                "controller on shared connections with half of the transfers disturbed; and 0 / 10% / 30% of the "
+                "transfers of every random history and group: over the real controller a command losing all its "
+                "transmissions (request or reply), or the replies to all commands of the operation late, so that each "
+                "is retransmitted and answered twice, the last duplicate arriving during the next operation); 60% of the random histories keep positions inside 0..len+3, write only "
                 "from positions <= len and seek from the end only with offset 0; non-trivial = at least 2 operations "
                 "(small scope) / at least one transfer that reached the controller (random); distinct = distinct "
                 "(memory, view, operation sequence)")
@@ -791,6 +974,10 @@ def run(chk):
     chk.assumptions.append("writes are write-through (rig documents that views do not buffer): the memory after each "
                            "operation is compared with the file model, so a buffering implementation would be rejected")
     chk.assumptions.append("addresses are recorded relative to the window origin so that they fit TLC's 32-bit integers")
+    chk.assumptions.append("a controller access that fails transfers nothing: the recording controller raises before it "
+                           "stores or returns anything; over the real controller the command of a write that loses all "
+                           "its transmissions is the write's first (what a view owes its caller after a write that "
+                           "failed half-way is not stated by the property)")
     chk.assumptions.append("a TruncationWarning at a position inside 0..len is taken to assert that the transfer was "
                            "cut short (clause WarningMeansTruncation)")
     # the shortest rejected history per key (mechanical)
@@ -822,7 +1009,25 @@ def selftest(chk):
     def swap(ev, i, j):
         ev[i], ev[j] = ev[j], ev[i]
 
+    # a read and a write whose controller access fails, and what follows
+    fops = [("seek", 1, (1, 0)), ("read", 1, (2,), ("fail", 0)), ("read", 1, (2,)), ("write", 1, (b"pq",), ("fail", 1)),
+            ("tell", 1, ())]
+    fgood = run_ops(fops, 88, mem, 12, 16, "selftest-failing-access")
+
+    def fmut(f):
+        t = dict(fgood)
+        t["ev"] = __import__("json").loads(__import__("json").dumps(fgood["ev"]))
+        f(t["ev"])
+        return t
+
     cases = [
+        (fgood, None),
+        (fmut(lambda ev: ev[1].__setitem__(6, [3])), "PositionAdvances"),                # moved though nothing came
+        (fmut(lambda ev: ev[3].__setitem__(6, [5])), "PositionAdvances"),                # ... nothing was stored
+        (fmut(lambda ev: ev[1][4][0].__setitem__(1, 11)), "Confined"),                   # attempted below the view
+        (fmut(lambda ev: ev[1].__setitem__(4, [])), "NoSpuriousFailure"),                # raised without a failure
+        (fmut(lambda ev: ev[3].__setitem__(3, ["ok", [2]])), "WrittenBytesStored"),      # claims the bytes written
+    ] + [
         (good, None),
         (mut(lambda ev: ev[2][3][1].__setitem__(0, 0)), "ReadsLastWritten"),            # corrupt a byte read
         (mut(lambda ev: ev[0][4][0].__setitem__(1, 11)), "Confined"),                    # access below the view
